@@ -39,7 +39,8 @@ def requests():
 
 
 def swap_name(s):
-    return re.sub(r"det_num_([AB])", lambda m: "det_num_" + ("B" if m.group(1) == "A" else "A"), s)
+    # the two detectors are the function's second and third parameter, named by role (never by the identifiers in the source)
+    return re.sub(r"\$det_([AB])", lambda m: "$det_" + ("B" if m.group(1) == "A" else "A"), s)
 
 
 def canon_sym(s):
@@ -76,7 +77,11 @@ def canon_sym(s):
 
 def rule_ab(ctx, fn):
     cfg = CFG(fn)
-    alg = Algebra(fn, names=True, cfg=cfg, symmetric=SYMMETRIC)
+    if len(fn.params) != 3:
+        ctx.unrec(fn.qn, "expected (scatter point, detector A, detector B) parameters")
+        return
+    roles = {fn.params[0]["d"]: "$scatter_point", fn.params[1]["d"]: "$det_A", fn.params[2]["d"]: "$det_B"}
+    alg = Algebra(fn, names=roles, cfg=cfg, symmetric=SYMMETRIC)
     rets = [r for r in cfg.return_nodes() if r.c]
     main = [r for r in rets if key(r.c[0].strip()) not in ("0", "0.0")]
     zero = [r for r in rets if key(r.c[0].strip()) in ("0", "0.0")]
@@ -85,7 +90,7 @@ def rule_ab(ctx, fn):
         return
     E = alg.expr(main[0].c[0])
     names = {s.name for s in E.free_symbols}
-    if not any("det_num_A" in n for n in names) or not any("det_num_B" in n for n in names):
+    if not any("$det_A" in n for n in names) or not any("$det_B" in n for n in names):
         ctx.unrec(fn.qn, "returned expression does not mention both detectors")
         return
     E = E.subs({s: sympy.Symbol(canon_sym(s.name), real=True) for s in E.free_symbols}, simultaneous=True)
@@ -147,35 +152,34 @@ def rule_c(ctx, fns):
         cfg = CFG(f)
         rets = [r for r in cfg.return_nodes() if r.c]
         defs = LocalDefs(f)
-        # the miss path: `const float result = <uncached call>(...)`, stored to the cache cell and returned
-        res = [d for d in defs.decl.values() if d.get("n") == "result" and d.c]
+        # the miss path: the value computed by the uncached function is stored to the cache cell and returned.  Everything is found by
+        # data flow: the call by its callee, the cell by what its address is taken from, the hit value by where it was read from
+        want = f.short[len("cached_") :]
+        inl = {d: defs.single_def(d) for d in defs.decl}
+        K = lambda x: key(x, False, inl)
+        calls = [c for c in f.calls() if (c.callee or "").split("::")[-1] == want]
         ok = False
-        det = "no `result` computed by the uncached function"
-        if res:
-            call = res[0].c[0].strip()
-            want = f.short[len("cached_") :]
-            stores = [n for n in f.walk() if n.k == "BinaryOperator" and n.op == "=" and n.c[0].strip().k == "UnaryOperator" and n.c[0].strip().op == "*" and key(n.c[1].strip(), True) == "result"]
-            ret_res = [r for r in rets if key(r.c[0].strip(), True) == "result"]
-            args = [key(a, True) for a in call.call_args()] if call.is_call() else []
-            ok = (
-                call.is_call()
-                and (call.callee or "").split("::")[-1] == want
-                and len(stores) == 1
-                and len(ret_res) == 1
-                and len(args) == 2
-                and re.fullmatch(r"this\.scatt_points_vector\[scatter_point_num\]\.coord", args[0]) is not None
-                and args[1] == "this.detection_points_vector[det_num]"
-            )
-            det = "miss: result = %s(%s); stored to the cell; returned" % ((call.callee or "?").split("::")[-1], ",".join(args))
-            # the cell address uses the same two indices
-            loc = [d for d in defs.decl.values() if d.get("n") == "location_in_cache" and d.c]
-            if loc:
-                lk = key(loc[0].c[0], True)
-                ok = ok and "[scatter_point_num][det_num]" in lk
-                det += "; cell = " + lk[:90]
-            # hit path returns the cached value
-            hits = [r for r in rets if key(r.c[0].strip(), True) in ("value", "*location_in_cache", "(* location_in_cache)")]
+        det = "the uncached function %s is not called" % want
+        if len(calls) == 1 and len(f.params) == 2:
+            call = calls[0]
+            p0, p1 = "v%d" % f.params[0]["d"], "v%d" % f.params[1]["d"]
+            args = [key(a) for a in call.call_args()]
+            ck = K(call)
+            # the cell: a pointer local whose initialiser takes the address of CACHE[p0][p1]
+            locs = [d for d, vd in defs.decl.items() if vd.c and any(m.k == "UnaryOperator" and m.op == "&" and key(m.c[0].strip()).endswith("[%s][%s]" % (p0, p1)) for m in vd.c[0].walk())]
+            loc = "v%d" % locs[0] if len(locs) == 1 else None
+            stores = [n for n in f.walk() if n.k == "BinaryOperator" and n.op == "=" and loc is not None and key(n.c[0].strip()) in ("*" + loc, "(* %s)" % loc) and K(n.c[1].strip()) == ck]
+            ret_res = [r for r in rets if K(r.c[0].strip()) == ck]
+            ok = len(stores) == 1 and len(ret_res) == 1 and args == ["this.scatt_points_vector[%s].coord" % p0, "this.detection_points_vector[%s]" % p1] and loc is not None
+            det = "miss: result = %s(%s); stored to the cell; returned" % (want, ",".join(key(a, True) for a in call.call_args()))
+            if loc is not None:
+                det += "; cell = " + key(defs.decl[locs[0]].c[0], True)[:90]
+            # hit path returns the cached value: a local that was read from the cell, or the cell itself
+            from_cell = {"v%d" % d for d in defs.decl if any(key(x.strip()) in ("*" + str(loc), "(* %s)" % loc) for x in defs.all_defs(d))}
+            hits = [r for r in rets if key(r.c[0].strip()) in from_cell or key(r.c[0].strip()) in ("*" + str(loc), "(* %s)" % loc)]
             ok = ok and len(hits) == 1
+            if not ok:
+                det = "miss path does not (compute by %s(scatter point, detector) -> store to the cell of the same indices -> return the same value) or hit path does not return the cell's value: %s" % (want, det)
         ctx.ob("C16.c-cache-equivalence", f.qn, "miss-computes-stores-returns-same", ok, f.where(), det)
 
 
